@@ -1,6 +1,12 @@
 """C13 — path algebra.  Correspondence: Lean `CS.Path` model vs cloudsync.provider.Provider helpers
 and CloudSync.translate, exhaustively over a small alphabet plus structured/random long paths.
-Search oracle (after a break): the C13 laws as executable predicates on the implementation."""
+Search oracle (after a break): the C13 laws as executable predicates on the implementation.
+
+Optional parameters: every helper is exercised with each value of its optional parameters AND with the
+parameter omitted (ops ending in `_d`; the model line carries the default of the signature in provider.py:
+normalize_path(for_display=False), paths_match(for_display=False), is_subpath(strict=False),
+is_subpath_of_root(strict=False)); `None` arguments of is_subpath/is_subpath_of_root/paths_match and nested
+list/tuple/None arguments of join are part of the model (isSubpathOpt, isSubpathOfRoot, joinArgs)."""
 import itertools
 import os
 import sys
@@ -15,7 +21,8 @@ CONFIGS = [(True, False, True), (False, False, True), (True, True, True), (False
 FP_SPEC = {"cloudsync/provider.py": ["Provider.__normalize_path_list", "Provider.__strip_path_list", "Provider.join",
                                      "Provider.split", "Provider.normalize_path_separators", "Provider.normalize_path",
                                      "Provider.is_subpath", "Provider.replace_path", "Provider.paths_match",
-                                     "Provider.dirname", "Provider.basename"],
+                                     "Provider.dirname", "Provider.basename",
+                                     "Provider.is_subpath_of_root"],
            "cloudsync/cs.py": ["CloudSync.translate"]}
 
 
@@ -31,6 +38,19 @@ def providers():
         p = cls(False, cs)
         provs[(cs, win, alt)] = p
     return provs
+
+
+def of_root(p, root, target, *strict):
+    """is_subpath_of_root(target[, strict]) on the real provider with its root path set to `root`"""
+    saved = p.__dict__.get("_root_path", None)
+    p._root_path = root
+    try:
+        return p.is_subpath_of_root(target, *strict)
+    finally:
+        if saved is None:
+            p.__dict__.pop("_root_path", None)
+        else:
+            p._root_path = saved
 
 
 def cfg_tok(cfg):
@@ -68,6 +88,28 @@ def real_eval(provs, cfg, op, args):
             return enc_str(p.basename(args[0]))
         if op == "normalize":
             return enc_str(p.normalize_path(args[0], args[1]))
+        if op == "normalize_kw":
+            return enc_str(p.normalize_path(args[0], for_display=args[1]))
+        if op == "normalize_d":
+            return enc_str(p.normalize_path(args[0]))
+        if op == "joinn":
+            return enc_str(p.join(*args))
+        if op == "issub_d":
+            r = p.is_subpath(args[0], args[1])
+            return "F" if r is False else enc_str(r)
+        if op == "issub_kw":
+            r = p.is_subpath(args[0], args[1], strict=args[2])
+            return "F" if r is False else enc_str(r)
+        if op == "issubopt":
+            r = p.is_subpath(args[0], args[1], args[2])
+            return "F" if r is False else enc_str(r)
+        if op in ("issubroot", "issubroot_d"):
+            r = of_root(p, args[0], args[1]) if op == "issubroot_d" else of_root(p, args[0], args[1], args[2])
+            return "F" if r is False else enc_str(r)
+        if op == "match_d":
+            return enc_bool(p.paths_match(args[0], args[1]))
+        if op == "match_kw":
+            return enc_bool(p.paths_match(args[0], args[1], for_display=args[2]))
         if op == "issub":
             r = p.is_subpath(args[0], args[1], args[2])
             return "F" if r is False else enc_str(r)
@@ -85,10 +127,38 @@ def real_eval(provs, cfg, op, args):
     raise HarnessError("bad op " + op)
 
 
+# model op and appended default for the implementation ops that omit / name the optional parameter
+MODEL_OP = {"normalize_d": ("normalize", [False]), "normalize_kw": ("normalize", []),
+            "issub_d": ("issub", [False]), "issub_kw": ("issub", []),
+            "issubroot_d": ("issubroot", [False]),
+            "match_d": ("match", [False]), "match_kw": ("match", [])}
+
+
+def jarg_toks(a):
+    if a is None:
+        return ["~"]
+    if isinstance(a, (list, tuple)):
+        out = ["["]
+        for x in a:
+            out += jarg_toks(x)
+        return out + ["]"]
+    return [enc_str(a)]
+
+
 def line_for(cfg, op, args):
+    if op == "joinn":
+        toks = [cfg_tok(cfg), op]
+        for a in args:
+            toks += jarg_toks(a)
+        return " ".join(toks)
+    if op in MODEL_OP:
+        op, extra = MODEL_OP[op]
+        args = list(args) + extra
     toks = [cfg_tok(cfg), op]
     for a in args:
-        if isinstance(a, bool):
+        if a is None:
+            toks.append("~")
+        elif isinstance(a, bool):
             toks.append(enc_bool(a))
         elif isinstance(a, tuple):
             toks.append(cfg_tok(a))
@@ -125,6 +195,73 @@ def variants(rng, p):
     return rng.sample(v, 4)
 
 
+def case_pairs(rng, count):
+    """pairs (a, b) for the two equality flavours: folder parts differing only by case with equal leaves,
+    leaf-only case differences, both, alternate / doubled / trailing separators, the root, relative paths.
+    The first entries are fixed (they include the reviewer's example), the rest is drawn."""
+    fixed = [("/Docs/x.txt", "/docs/x.txt"), ("/docs/X.txt", "/docs/x.txt"), ("/Docs/X.txt", "/docs/x.txt"),
+             ("/a/B/c/leaf", "/a/b/c/leaf"), ("\\Top\\Mid\\leaf", "/top/mid/leaf"), ("/\u00c9t\u00e9/leaf", "/\u00e9t\u00e9/leaf"),
+             ("/A", "/a"), ("/A/", "/a"), ("A", "/a"), ("/", "/"), ("/", "//"), ("/", "\\"), ("", "/"), ("/a//B/", "\\A\\b"),
+             ("/Docs/x.txt/", "/docs//x.txt"), ("/docs/x.txt", "/docs/x.txt"), ("/Docs", "/Docs/"), ("/D/e/F", "/d/E/f")]
+    comps = ["Docs", "a", "B", "Mid", "\u00c9t\u00e9", "x y", "r.d", "Q", "zz", "c:"]
+    leaves = ["x.txt", "Leaf", "A", "b", "\u00c9", "n.N", "R e"]
+
+    def flip(t, how):
+        return {0: t.lower(), 1: t.upper(), 2: t.swapcase(), 3: t}[how]
+
+    def render(parts, lead, sepk, trail):
+        sp = ["/", "\\", "//", "/\\"][sepk]
+        return lead + sp.join(parts) + trail
+
+    out = list(fixed)
+    for _ in range(count):
+        n = rng.randint(0, 4)
+        folders = [rng.choice(comps) for _ in range(n)]
+        leaf = rng.choice(leaves)
+        kind = rng.randint(0, 4)      # 0 folder-only case change, 1 leaf-only, 2 both, 3 none (separators only), 4 other leaf
+        f2 = [flip(t, rng.randint(0, 2)) for t in folders] if kind in (0, 2) else list(folders)
+        l2 = flip(leaf, rng.randint(0, 2)) if kind in (1, 2) else (rng.choice(leaves) if kind == 4 else leaf)
+        a = render(folders + [leaf], rng.choice(["/", "/", "", "\\", "//"]), rng.choice([0, 0, 0, 1, 2, 3]), rng.choice(["", "", "/", "\\"]))
+        b = render(f2 + [l2], rng.choice(["/", "/", "", "\\"]), rng.choice([0, 0, 1, 2]), rng.choice(["", "", "/"]))
+        out.append((a, b))
+    return out
+
+
+def join_arg_lists(rng, count):
+    """argument lists for join(): empty components, alternate/doubled separators, nested lists/tuples/None"""
+    atoms = ["", "", "a", "A b", "/", "\\", "//", "/a/", "\\a\\", "a//b", "a\\b/", "c:", "c:\\", "\u00e9", "x/", "/x", ".", ".."]
+    out = [[], [""], ["", ""], [[]], [None], [[], None, ()], [["/"]], [[""], "a"], ["a", ["b", ("c", [None, "d"])], "e"],
+           [["", "/"], "a"], [("//a",), "b"], ["/", "/", "/"], ["", "a", "", "b", ""], ["\\", "a"], ["c:", "\\a"]]
+
+    def nest(depth):
+        n = rng.randint(0, 3)
+        items = []
+        for _ in range(n):
+            r = rng.random()
+            if r < 0.15 and depth < 3:
+                items.append(nest(depth + 1))
+            elif r < 0.25 and depth < 3:
+                items.append(tuple(nest(depth + 1)))
+            elif r < 0.32:
+                items.append(None)
+            else:
+                items.append(rng.choice(atoms))
+        return items
+    for _ in range(count):
+        out.append([x for x in nest(0)] + [rng.choice(atoms) for _ in range(rng.randint(0, 3))])
+    return out
+
+
+def flat_args(args):
+    out = []
+    for a in args:
+        if isinstance(a, str):
+            out.append(a)
+        elif a:
+            out += flat_args(a)
+    return out
+
+
 def gen_cases(tier, seed):
     """yield (cfg, op, args)"""
     rng = rng_for(seed, "c13")
@@ -136,7 +273,51 @@ def gen_cases(tier, seed):
     # random long strings over the alphabet
     for _ in range(100 if tier == "quick" else 1000):
         long_paths.append("".join(rng.choice(ALPHA + ["a", "b", "/"]) for _ in range(rng.randint(5, 200))))
+    cpairs = case_pairs(rng, 400 if tier == "quick" else 1500)
+    jlists = join_arg_lists(rng, 300 if tier == "quick" else 1000)
+    tiny = list(strings_upto(3))
     for cfg in CONFIGS:
+        # --- both equality flavours on case-variant pairs; every way of passing the flag (positional, keyword, omitted)
+        for a, b in cpairs:
+            for fd in (False, True):
+                yield cfg, "match", [a, b, fd]
+                yield cfg, "normalize", [a, fd]
+                yield cfg, "normalize", [b, fd]
+            yield cfg, "match_d", [a, b]
+            yield cfg, "match_kw", [a, b, True]
+            yield cfg, "normalize_d", [a]
+            yield cfg, "normalize_kw", [b, True]
+            for st in (False, True):
+                yield cfg, "issub", [a, b, st]
+                yield cfg, "issub", [b, a, st]
+            yield cfg, "issub_d", [a, b]
+            yield cfg, "issub_kw", [b, a, True]
+            yield cfg, "replace", [a, b, "/T o\\"]
+            yield cfg, "replace", [a + "/k/L", b, "to/"]
+        # --- None arguments, root path of the provider
+        for a, b in cpairs[:60]:
+            for st in (False, True):
+                yield cfg, "issubopt", [None, a, st]
+                yield cfg, "issubopt", [a, None, st]
+                yield cfg, "issubroot", [a, b, st]
+                yield cfg, "issubroot", [a, a + "/In/side", st]
+                yield cfg, "issubroot", [None, b, st]
+                yield cfg, "issubroot", [a, None, st]
+            yield cfg, "issubroot_d", [a, b]
+            yield cfg, "issubroot_d", [b, b]
+            yield cfg, "issubopt", [None, None, False]
+        # --- join: zero args, empty components, alternate separators, nested lists / tuples / None
+        for al in jlists:
+            yield cfg, "joinn", al
+            yield cfg, "join", flat_args(al)
+        # --- dirname / basename / split on the root and every tiny string
+        for s in tiny:
+            yield cfg, "dirname", [s]
+            yield cfg, "basename", [s]
+        for s in [None, "", "/a", "/A/b"]:
+            for t in [None, "", "/a", "/a/B"]:
+                yield cfg, "match", [s, t, True]
+                yield cfg, "match_d", [s, t]
         for s in unary + long_paths:
             yield cfg, "normseps", [s]
             yield cfg, "split", [s]
@@ -172,7 +353,10 @@ def gen_cases(tier, seed):
             for q in variants(rng, p):
                 yield cfg, "issub", [p, q, False]
                 yield cfg, "issub", [q, p, True]
-                yield cfg, "match", [p, q, rng.random() < 0.5]
+                yield cfg, "issub", [p, q, True]
+                yield cfg, "issub", [q, p, False]
+                yield cfg, "match", [p, q, False]
+                yield cfg, "match", [p, q, True]
                 yield cfg, "join", [p, q]
                 yield cfg, "replace", [q, p, rng.choice(long_paths)]
                 yield cfg, "dirname", [q]
@@ -210,6 +394,9 @@ def laws_on_impl(provs, tier, seed, known_open, budget_s=120):
     rng = rng_for(seed, "c13laws")
     pool = list(strings_upto(3)) + structured_paths(rng, 400)
     rels = ["x", "x/y", "a b", "X.txt", "\u00e9/z", "x\\y", "/x/", "//x", "A", ".."]
+    lawpairs = case_pairs(rng, 600 if tier == "quick" else 3000)
+    lawpairs += [(a, b) for a in structured_paths(rng, 60) for b in variants(rng, a)]
+    lawjoins = join_arg_lists(rng, 200)
     from cloudsync.cs import CloudSync
 
     def fail(law, cfg, **kw):
@@ -229,6 +416,78 @@ def laws_on_impl(provs, tier, seed, known_open, budget_s=120):
         def hasname(r):
             return any(ch != "/" and not (alt and ch == "\\") for ch in r)
 
+        # ---- the flag laws (Props/C13.lean, section "both flag values, optional arguments")
+        pcs = provs[(True, False, alt)]          # same separators, case-sensitive: `{ c with cs := true }`
+
+        def fold(x):
+            return x if cfg[0] else x.lower()
+        for a, b in lawpairs:
+            if _t.time() - t0 > budget_s:
+                return None
+            try:
+                m_t, m_f = p.paths_match(a, b, True), p.paths_match(a, b, False)
+                if cfg[0]:
+                    if m_t != m_f:
+                        return fail("pathsMatch_display_iff_default_cs", cfg, a=a, b=b, for_display_true=m_t, for_display_false=m_f)
+                else:
+                    na, nb = pcs.normalize_path(a), pcs.normalize_path(b)
+                    want = p.dirname(na).lower() == p.dirname(nb).lower() and p.basename(na) == p.basename(nb)
+                    if m_t != want:
+                        return fail("pathsMatch_display_iff_ci", cfg, a=a, b=b, got=m_t, expected=want)
+                if m_t and not m_f:
+                    return fail("pathsMatch_display_implies_default", cfg, a=a, b=b)
+                if p.paths_match(a, b) != m_f:
+                    return fail("pathsMatch_iff_normalize (flag omitted: leaf case must be kept only when asked, default for_display=False)", cfg, a=a, b=b)
+                for fd in (False, True):
+                    if p.paths_match(a, b, fd) != (p.normalize_path(a, fd) == p.normalize_path(b, fd)):
+                        return fail("pathsMatch_iff_normalize", cfg, a=a, b=b, fd=fd)
+                for x in (a, b):
+                    n_t, n_f = p.normalize_path(x, True), p.normalize_path(x, False)
+                    if p.normalize_path(x) != n_f:
+                        return fail("normalizePath (flag omitted: default for_display=False)", cfg, p=x)
+                    if cfg[0]:
+                        if n_t != n_f:
+                            return fail("case_sensitive_normalize_preserves_case", cfg, p=x, for_display_true=n_t, for_display_false=n_f)
+                        for fd, n in ((False, n_f), (True, n_t)):
+                            if any(ch != "/" and ch not in x for ch in n):
+                                return fail("case_sensitive_normalize_chars", cfg, p=x, fd=fd, got=n)
+                    else:
+                        nx = pcs.normalize_path(x)
+                        if p.dirname(n_t) != p.dirname(nx).lower() or p.basename(n_t) != p.basename(nx):
+                            return fail("display_folds_folders_keeps_leaf", cfg, p=x, got=n_t, case_sensitive_form=nx)
+                        if n_t.lower() != n_f:
+                            return fail("pathsMatch_display_leaf", cfg, p=x)
+                    for fd, n in ((False, n_f), (True, n_t)):
+                        if p.normalize_path(n, fd) != n and not known("normalizePath_idem", cfg, p=x, fd=fd):
+                            return fail("normalizePath_idem", cfg, p=x, fd=fd)
+                        if not p.paths_match(n, x):
+                            return fail("normalizePath_matches_self", cfg, p=x, fd=fd, normal_form=n)
+                # strict flag of is_subpath: differs from the default exactly on equal (normalised, folded) paths
+                for f, t in ((a, b), (b, a), (a, a + "/k"), (a, a)):
+                    same = bool(f) and bool(t) and fold(p.normalize_path_separators(f)) == fold(p.normalize_path_separators(t))
+                    d = p.is_subpath(f, t)
+                    if p.is_subpath(f, t, False) != d:
+                        return fail("isSubpath_strict (flag omitted: default strict=False)", cfg, f=f, t=t)
+                    if p.is_subpath(f, t, True) != (False if same else d):
+                        return fail("isSubpath_strict", cfg, f=f, t=t, strict_true=p.is_subpath(f, t, True), strict_false=d)
+                    if same and d != "/":
+                        return fail("isSubpath_same", cfg, f=f, t=t, strict_false=d)
+                if p.is_subpath(None, a) is not False or p.is_subpath(a, None, True) is not False:
+                    return fail("isSubpathOpt_rel", cfg, p=a)
+                for root, t in ((a, b), (b, a), (a, a), (a, a + "/k"), (None, a)):
+                    for st in (False, True):
+                        if of_root(p, root, t, st) != p.is_subpath(root, t, st):
+                            return fail("isSubpathOfRoot_eq", cfg, root=root, target=t, strict=st, got=of_root(p, root, t, st))
+                    if of_root(p, root, t) != p.is_subpath(root, t, False):
+                        return fail("isSubpathOfRoot_eq (flag omitted: default strict=False)", cfg, root=root, target=t)
+            except Exception as e:
+                return fail("total", cfg, a=a, b=b, exc=repr(e))
+        for al in lawjoins:
+            try:
+                if p.join(*al) != p.join(*flat_args(al)):
+                    return fail("joinArgs_nested", cfg, args=repr(al))
+            except Exception as e:
+                return fail("total", cfg, args=repr(al), exc=repr(e))
         for s in pool:
             if _t.time() - t0 > budget_s:
                 return None
@@ -372,9 +631,16 @@ def run(res, tier, seed, proof_broken, replay):
     distinct = set()
     ops = {}
     errs = {}
+    flags = {}
     for (cfg, op, args), m in zip(cases, model):
         r = real_eval(provs, cfg, op, args)
         ops[op] = ops.get(op, 0) + 1
+        base = op.split("_")[0]
+        if base in ("normalize", "match", "issub", "issubopt", "issubroot"):
+            how = "omitted" if op.endswith("_d") else ("keyword" if op.endswith("_kw") else "positional")
+            val = "default" if op.endswith("_d") else enc_bool(args[-1])
+            k = "%s cs=%s %s=%s (%s)" % (base, enc_bool(cfg[0]), "for_display" if base in ("normalize", "match") else "strict", val, how)
+            flags[k] = flags.get(k, 0) + 1
         if r.startswith("!"):
             errs[r] = errs.get(r, 0) + 1
         if nontrivial_key(op, args, r):
@@ -385,17 +651,20 @@ def run(res, tier, seed, proof_broken, replay):
     res.coverage.update({
         "evaluations": len(cases), "distinct_nontrivial": len(distinct),
         "rule": "exhaustive strings over %r up to length %d (unary ops), all pairs up to length %d (binary), triples up to length %d, "
-                "plus structured/random long paths and their variants, for configs (case_sensitive, win_paths, alt_sep) in %r; "
+                "plus structured/random long paths and their variants, plus case-variant pairs (folder-only / leaf-only / both / separator-only "
+                "differences, alternate, doubled and trailing separators, root) under both values of for_display and strict, with the "
+                "optional parameter passed positionally, by keyword and omitted, None arguments, is_subpath_of_root, and join() on "
+                "nested list/tuple/None argument lists, for configs (case_sensitive, win_paths, alt_sep) in %r; "
                 "non-trivial = result differs from the first argument, or a decision on all-non-empty arguments, or an exception; "
                 "distinct by (op, args, result)" % (ALPHA, 4 if tier == "quick" else 5, 2 if tier == "quick" else 3,
                                                     1 if tier == "quick" else 2, CONFIGS),
         "samples": [{"line": lines[i], "model": model[i]} for i in (0, len(lines) // 3, len(lines) // 2, len(lines) - 1)],
         "exhaustive": True, "programs": len(cases), "disagreements_checked": len(disagreements),
-        "op_histogram": ops, "error_kinds": errs, "fingerprints": fingerprints(FP_SPEC),
+        "op_histogram": ops, "optional_parameter_histogram": flags, "error_kinds": errs, "fingerprints": fingerprints(FP_SPEC),
         "stale_known_findings": stale,
     })
     res.assumptions += ["str.lower() is modelled as a per-character map (ASCII + Latin-1); other Unicode is outside the theorem's guard",
-                        "nested list arguments of join() are flattened by the harness, not modelled"]
+                        "default values of optional parameters (for_display=False, strict=False) are attached by the harness to the model line of the calls that omit them"]
     broken = list(proof_broken)
     if disagreements:
         broken.append("correspondence path-layer: %d disagreements, first %r" % (len(disagreements), disagreements[0]))
